@@ -28,7 +28,7 @@
 (*     profService.ProfileTypes                 -> MechProfileTypes        *)
 (*     planner_label_generic.go / _names / _values -> MechLabelNames/Values*)
 (*     planner_select_(all_)time_series.go + planner_filter_labels.go +    *)
-(*       profService.TimeSeries                 -> MechSeries              *)
+(*       planner_union_all.go + profService.TimeSeries -> MechSeries       *)
 (*     planner_profiles_size.go                 -> MechAnalyze             *)
 (*     profService.ProfileStats                 -> MechStats               *)
 (*                                                                         *)
@@ -88,6 +88,7 @@ AllQuirks == {"avg_sql",            \* SelectSeries AVERAGE: arrayFirst(x -> x.1
               "groupby_order",      \* SelectSeries group_by: cityHash64 of the filtered tags in STORED order (no arraySort)
               "dup_labelsets",      \* Series with label_names: no DISTINCT after the labels are filtered
               "names_ignored",      \* Series without matchers: label_names is ignored (AllTimeSeriesSelectPlanner returns early)
+              "second_matcher_lost",\* Series with several matchers: one "WITH fp" survives, every branch reads the first matcher's fingerprints
               "merge_lineless",     \* SelectMergeProfile: hashLines takes &x[0] of an empty slice (location without line info)
               "merge_emptystack",   \* SelectMergeProfile: hashLocations takes &locations[0] of an empty slice
               "merge_incompatible", \* SelectMergeProfile merges whole payloads: different sample type lists are refused
@@ -249,25 +250,36 @@ MechProfileTypes(db) == UNION {{TypeRec(r.ty, r.stu[k]) : k \in DOMAIN r.stu} : 
 DefProfileTypes(db)  == UNION {{TypeRec(Per(db[i]), x) : x \in Range(TL(db[i]))} : i \in Idx(db)}
 
 (************************ LabelNames, LabelValues, Series ******************)
-MechLabelNames(db, sel)     == {g.key : g \in {x \in GinRows(db) : x.fp \in FpSel(db, sel)}}
-DefLabelNames(db, sel)      == UNION {{kv[1] : kv \in FullLabels(db[i])} : i \in {x \in Idx(db) : DefMatches(db[x], sel)}}
-MechLabelValues(db, n, sel) == {g.val : g \in {x \in GinRows(db) : x.fp \in FpSel(db, sel) /\ x.key = n}}
-DefLabelValues(db, n, sel)  == UNION {{kv[2] : kv \in {x \in FullLabels(db[i]) : x[1] = n}} : i \in {x \in Idx(db) : DefMatches(db[x], sel)}}
+\* these three take a LIST of matchers (0..2 here): the answer is about the series that match ANY of them
+FpSelAny(db, sels)     == IF sels = <<>> THEN {g.fp : g \in GinRows(db)}          \* no fp sub-query at all
+                          ELSE UNION {FpSel(db, sels[i]) : i \in DOMAIN sels}     \* UnionAllPlanner over the stream selectors
+DefMatchesAny(p, sels) == sels = <<>> \/ \E i \in DOMAIN sels : DefMatches(p, sels[i])
+MechLabelNames(db, sels)     == {g.key : g \in {x \in GinRows(db) : x.fp \in FpSelAny(db, sels)}}
+DefLabelNames(db, sels)      == UNION {{kv[1] : kv \in FullLabels(db[i])} : i \in {x \in Idx(db) : DefMatchesAny(db[x], sels)}}
+MechLabelValues(db, n, sels) == {g.val : g \in {x \in GinRows(db) : x.fp \in FpSelAny(db, sels) /\ x.key = n}}
+DefLabelValues(db, n, sels)  == UNION {{kv[2] : kv \in {x \in FullLabels(db[i]) : x[1] = n}} : i \in {x \in Idx(db) : DefMatchesAny(db[x], sels)}}
 
 \* profService.TimeSeries: the pseudo labels of a (type_id, sample type) come first, then the stored tags
 Pseudo(per, pair) == {<<"__name__", per[1]>>, <<"__period_type__", per[2]>>, <<"__period_unit__", per[3]>>,
                       <<"__sample_type__", pair[1]>>, <<"__sample_unit__", pair[2]>>,
                       <<"__profile_type__", per[1] \o ":" \o pair[1] \o ":" \o pair[2] \o ":" \o per[2] \o ":" \o per[3]>>}
-\* request: [sel, ln (sequence of label names, <<>> = all), m (TRUE: the request carries a matcher)]
-\* answer : set of [s |-> label set, n |-> multiplicity]
+\* request: [sels (the matchers), ln (sequence of label names, <<>> = all)];  answer: set of [s |-> label set, n |-> multiplicity]
+\* PlanSeries: no selector in any matcher => AllTimeSeriesSelectPlanner (and nothing else); otherwise one
+\* TimeSeriesSelectPlanner per matcher, each with its own "WITH fp AS (..)" -- the statement keeps ONE definition per WITH
+\* alias, the first: every branch of the UNION ALL reads the fingerprints of the FIRST matcher (its own "global"
+\* conditions -- service_name -- stay in its WHERE)
 MechSeries(db, rq, Q) ==
-    LET rows == UNION {{[tags |-> r.tags, ty |-> r.ty, stu |-> r.stu[k]] : k \in DOMAIN r.stu} :   \* SELECT DISTINCT tags, type_id, _sample_types_units
-                          r \in {x \in SeriesRows(db) : x.fp \in FpSel(db, rq.sel)}}         \*   .. ARRAY JOIN sample_types_units
-        filt == rq.ln # <<>> /\ (rq.m \/ "names_ignored" \notin Q)                 \* PlanSeries: selectorsCount == 0 => no FilterLabelsPlanner
-        LS(x) == Pseudo(x.ty, x.stu) \cup (IF filt THEN Range(FilterSeq(x.tags, Range(rq.ln))) ELSE Range(x.tags))
+    LET nsel   == Cardinality({i \in DOMAIN rq.sels : rq.sels[i] # <<>>})
+        Glob(r, sel) == IF sel # <<>> /\ sel[1] = "service_name" THEN r.svc = sel[2] ELSE TRUE
+        Branch(i) == LET fps == IF "second_matcher_lost" \in Q THEN FpSel(db, rq.sels[1]) ELSE FpSel(db, rq.sels[i])
+                     IN  {r \in SeriesRows(db) : r.fp \in fps /\ Glob(r, rq.sels[i])}
+        srows  == IF nsel = 0 THEN SeriesRows(db) ELSE UNION {Branch(i) : i \in DOMAIN rq.sels}
+        rows   == UNION {{[tags |-> r.tags, ty |-> r.ty, stu |-> r.stu[k]] : k \in DOMAIN r.stu} : r \in srows}   \* DISTINCT tags, type_id, ARRAY JOIN sample_types_units
+        filt   == rq.ln # <<>> /\ (nsel > 0 \/ "names_ignored" \notin Q)                \* selectorsCount == 0 => no FilterLabelsPlanner
+        LS(x)  == Pseudo(x.ty, x.stu) \cup (IF filt THEN Range(FilterSeq(x.tags, Range(rq.ln))) ELSE Range(x.tags))
     IN  IF "dup_labelsets" \in Q THEN BagOf(rows, LS) ELSE {[s |-> LS(x), n |-> 1] : x \in rows}
 DefSeries(db, rq) ==
-    LET ms == {i \in Idx(db) : DefMatches(db[i], rq.sel)}
+    LET ms == {i \in Idx(db) : DefMatchesAny(db[i], rq.sels)}
         LS(i, x) == Pseudo(Per(db[i]), x) \cup (IF rq.ln # <<>> THEN {kv \in FullLabels(db[i]) : kv[1] \in Range(rq.ln)} ELSE FullLabels(db[i]))
     IN  {[s |-> ls, n |-> 1] : ls \in UNION {{LS(i, x) : x \in Range(TL(db[i]))} : i \in ms}}
 
@@ -303,9 +315,9 @@ LawMergeTotal(db, rq) ==
     IN  SeriesTotal(DefSelectSeries(db, [T |-> rq.T, sel |-> rq.sel, gb |-> <<>>, agg |-> "sum", s |-> rq.s, e |-> rq.e]))
         = IF c = 0 THEN 0 ELSE SumF([x \in m.samples |-> x.vals[c]])
 \* label names / values are those of the label sets Series answers (pseudo labels aside)
-LawLabels(db, sel) ==
-    LET ss == DefSeries(db, [sel |-> sel, ln |-> <<>>, m |-> TRUE])
+LawLabels(db, sels) ==
+    LET ss == DefSeries(db, [sels |-> sels, ln |-> <<>>])
         user == UNION {{kv \in x.s : kv[1] \notin {"__name__", "__period_type__", "__period_unit__", "__sample_type__", "__sample_unit__", "__profile_type__"}} : x \in ss}
-    IN  /\ DefLabelNames(db, sel) = {kv[1] : kv \in user}
-        /\ \A n \in DefLabelNames(db, sel) : DefLabelValues(db, n, sel) = {kv[2] : kv \in {x \in user : x[1] = n}}
+    IN  /\ DefLabelNames(db, sels) = {kv[1] : kv \in user}
+        /\ \A n \in DefLabelNames(db, sels) : DefLabelValues(db, n, sels) = {kv[2] : kv \in {x \in user : x[1] = n}}
 =============================================================================
